@@ -3,6 +3,8 @@ C02, execution half — F2: the expression step and the induction on the referen
 -/
 import ZygoVerif.Proofs.SimF2Forms
 import ZygoVerif.Proofs.SimF2Tail
+import ZygoVerif.Proofs.SimF2Lazy
+import ZygoVerif.Proofs.SimF2Apply
 set_option linter.unusedSimpArgs false
 set_option linter.unusedVariables false
 namespace ZygoVerif.Sim
@@ -11,8 +13,8 @@ open ZygoVerif.Core ZygoVerif.VM
 /-! ## The expression step, the induction -/
 
 theorem fclaimE_succ {n : Nat} (hE : FClaimE n) (hB : FClaimB n) (hC : FClaimC n) (hA : FClaimA n) (hU : FClaimU n)
-    (hS : FClaimS n) (hN : FClaimN n) (hL : FClaimL n) (hP : FClaimP n) (hV : FClaimV n) (hF : FClaimF n) :
-    FClaimE (n + 1) := by
+    (hS : FClaimS n) (hN : FClaimN n) (hL : FClaimL n) (hP : FClaimP n) (hV : FClaimV n) (hF : FClaimF n)
+    (hG : ∀ k, n = k + 1 → ∀ name, hoB name → FClaimH k name) : FClaimE (n + 1) := by
   intro fnOk self e he isFn c gs r hc hfn m s rs env pre post hrel hgen hseg
   cases e with
   | int x =>
@@ -198,7 +200,7 @@ theorem fclaimE_succ {n : Nat} (hE : FClaimE n) (hB : FClaimB n) (hC : FClaimC n
       cases n with
       | zero =>
         rw [Ref.eval, Ref.eval]; trivial
-      | succ k => exact simF_call hA hU hok he.2 hrel hseg
+      | succ k => exact simF_call hA hU (hG k rfl) hok he.2 hrel hseg
     | _ => simp [Ff] at he
   | fn ps rest body =>
     have hfo : fnOk = true := by
@@ -229,9 +231,9 @@ theorem fclaims_zero : FClaimE 0 ∧ FClaimB 0 ∧ FClaimC 0 ∧ FClaimA 0 ∧ F
     rw [Ref.evalBegin]; trivial
   · intro fnOk self arms d harms hd isFn c gs r gs0 rd hc hcd hfn m s rs env pre post hrel hgen hgend hseg
     rw [Ref.evalCond]; trivial
-  · intro args hargs fo hfo i m s rs env hrel
+  · intro args hargs fo lazyAt hfo i m s rs env hrel
     rw [Ref.evalArgs]; trivial
-  · intro m s₁ rs₁ env vid c vs D hrel hg hc hd hvs hlen
+  · intro m s₁ rs₁ env vid c vs D f₀ hrel hg hc hd hvs hlen
     rw [Ref.applyFn]; trivial
   · intro fnOk self isOr es hes isFn c gs r hc hfn m s rs env pre post hrel hgen hseg
     rw [Ref.evalAndOr]; trivial
@@ -249,21 +251,28 @@ theorem fclaims_zero : FClaimE 0 ∧ FClaimB 0 ∧ FClaimC 0 ∧ FClaimA 0 ∧ F
 
 theorem fclaims : ∀ n, FClaimE n ∧ FClaimB n ∧ FClaimC n ∧ FClaimA n ∧ FClaimU n ∧ FClaimS n ∧ FClaimN n ∧ FClaimL n
     ∧ FClaimP n ∧ FClaimV n ∧ FClaimF n ∧ TClaimV n ∧ TClaimE n ∧ TClaimB n ∧ TClaimC n ∧ TClaimN n
-    ∧ XClaimE n ∧ XClaimB n ∧ XClaimC n ∧ XClaimN n ∧ XClaimF n
+    ∧ XClaimE n ∧ XClaimB n ∧ XClaimC n ∧ XClaimN n ∧ XClaimF n ∧ (∀ j, j < n → FClaimE j ∧ FClaimU j)
   | 0 => by
     obtain ⟨hE, hB, hC, hA, hU, hS, hN, hL, hP, hV, hF⟩ := fclaims_zero
     obtain ⟨tV, tE, tB, tC, tN⟩ := tclaims_zero
     obtain ⟨xE, xB, xC, xN, xF⟩ := xclaims_zero
-    exact ⟨hE, hB, hC, hA, hU, hS, hN, hL, hP, hV, hF, tV, tE, tB, tC, tN, xE, xB, xC, xN, xF⟩
+    exact ⟨hE, hB, hC, hA, hU, hS, hN, hL, hP, hV, hF, tV, tE, tB, tC, tN, xE, xB, xC, xN, xF, fun j hj => absurd hj (Nat.not_lt_zero j)⟩
   | n + 1 => by
-    obtain ⟨hE, hB, hC, hA, hU, hS, hN, hL, hP, hV, hF, tV, tE, tB, tC, tN, xE, xB, xC, xN, xF⟩ := fclaims n
-    have hE1 := fclaimE_succ hE hB hC hA hU hS hN hL hP hV hF
+    obtain ⟨hE, hB, hC, hA, hU, hS, hN, hL, hP, hV, hF, tV, tE, tB, tC, tN, xE, xB, xC, xN, xF, hlow⟩ := fclaims n
+    -- a call of `force`, `apply`, `map` at this fuel runs thunks and closure bodies with less fuel
+    have hG : ∀ k, n = k + 1 → ∀ name, hoB name → FClaimH k name := fun k hk => by
+      subst hk; exact fclaimH hlow hA
+    have hE1 := fclaimE_succ hE hB hC hA hU hS hN hL hP hV hF hG
     have xE1 := xclaimE_succ hE1 hE hL hP xE xB xC xN xF
     exact ⟨hE1, fclaimB_succ hE hB, fclaimC_succ hE hC, fclaimA_succ hE hA,
       fclaimU_succ tB, fclaimS_succ hE hS, fclaimN_succ hE hN, fclaimL_succ hE hL, fclaimP_succ hE hP, fclaimV_succ hE hV,
-      fclaimF_succ hE hB hF, tclaimV_succ hE tV, tclaimE_succ hE1 xE1 tV hA hU hL hP tB tC tN, tclaimB_succ hE xE tE tB,
+      fclaimF_succ hE hB hF, tclaimV_succ hE tV, tclaimE_succ hE1 xE1 tV hA hU hG hL hP tB tC tN, tclaimB_succ hE xE tE tB,
       tclaimC_succ hE tE tC, tclaimN_succ hE xE tE tN, xE1, xclaimB_succ xE xB, xclaimC_succ hE xE xC,
-      xclaimN_succ xE xN, xclaimF_succ hE xB xF⟩
+      xclaimN_succ xE xN, xclaimF_succ hE xB xF,
+      fun j hj => by
+        rcases Nat.lt_succ_iff_lt_or_eq.mp hj with h | h
+        · exact hlow j h
+        · subst h; exact ⟨hE, hU⟩⟩
 
 /-- **Segment lemma for F2 expressions.** -/
 theorem segment_Ff (fnOk : Bool) (self : String) (e : Expr) (he : Ff fnOk self e = true) (isFn : Nat → Bool) (c : Ctx)
